@@ -19,6 +19,19 @@
 //	O:j  a struct whose FIRST field is the closer of slot j; both &outer and &outer.first are
 //	     registered, two different components at one address
 //	I    the first field of the O slot that points here
+//
+// when Close is invoked (Mode):
+//
+//	""        App.Run has returned, then the driver calls App.Close (the ordinary sequence)
+//	"during"  App.Run runs in a goroutine and is still inside callRunners: an ApplicationRunner of the case has
+//	          started and blocks ("serves") until it is released; the driver calls App.Close once that runner has
+//	          started.  The runner is released either by the Close of closer RelBy being CALLED (RelBy = j > 0; with
+//	          RunnerSlot = j-1 the runner and that closer are one component: a server that serves until it is
+//	          closed) or by the driver after App.Close has returned (RelBy = 0).  App.Run must return afterwards.
+//	"self"    an ApplicationRunner calls App.Close() itself from inside its Run(); the driver never calls Close.
+//
+// The oracle is the same in every mode: every closer called exactly once, Close returns after all of them
+// returned, nothing hangs.
 package main
 
 import (
@@ -45,6 +58,11 @@ type Case struct {
 	Shapes []string `json:"shapes"`
 	Procs  int      `json:"procs"`
 	WdlMs  int      `json:"wdl_ms"`
+	// Mode: "" | "during" | "self" (see above).  RunnerSlot: the slot (shape P) whose component is also the
+	// ApplicationRunner; -1 = the runner is a component of its own.  RelBy: "during" only.
+	Mode       string `json:"mode"`
+	RunnerSlot int    `json:"runner_slot"`
+	RelBy      int    `json:"rel_by"`
 }
 
 type Event struct {
@@ -75,7 +93,51 @@ type recorder struct {
 	allCalled chan struct{}
 	closed    chan struct{}
 	stalled   atomic.Bool
+
+	// the runner of the modes "during" / "self"
+	mode       string
+	relBy      int
+	release    chan struct{} // closed when the runner may return
+	relOnce    sync.Once
+	started    chan struct{} // closed when the runner's Run() has been entered
+	startOnce  sync.Once
+	app        *app.App
+	registered int32 // len(App.CloserComponents) as the runner saw it (mode "self")
+	runnerLost atomic.Bool
+	closePanic string
 }
+
+func (r *recorder) releaseRunner() { r.relOnce.Do(func() { close(r.release) }) }
+
+// runnerRun is Run() of the case's ApplicationRunner.
+func (r *recorder) runnerRun() error {
+	r.startOnce.Do(func() { close(r.started) })
+	switch r.mode {
+	case "during":
+		select {
+		case <-r.release:
+		case <-time.After(hangTimeout + stallTimeout):
+			r.runnerLost.Store(true) // nobody released the runner: give up so that the process can go on
+		}
+	case "self":
+		atomic.StoreInt32(&r.registered, int32(len(r.app.CloserComponents)))
+		r.closePanic = hx.Guard(func() { r.app.Close() })
+		r.add(Event{K: "close"})
+		close(r.closed)
+	}
+	return nil
+}
+
+// runner: an ApplicationRunner that is a component of its own.
+type runner struct{ rec *recorder }
+
+func (r *runner) Naming() string { return "runner" }
+func (r *runner) Run() error     { return r.rec.runnerRun() }
+
+// server: a closer that is also the ApplicationRunner (it "serves" inside Run until it is closed).
+type server struct{ closer }
+
+func (s *server) Run() error { return s.rec.runnerRun() }
 
 func (r *recorder) add(e Event) {
 	r.mu.Lock()
@@ -147,6 +209,9 @@ func (o *outer) Close() error   { return o.self.run() }
 
 func (c *core) run() error {
 	c.rec.add(Event{K: "call", I: c.id})
+	if c.rec.mode == "during" && c.rec.relBy == c.id {
+		c.rec.releaseRunner()
+	}
 	switch c.kind {
 	case "A":
 		select {
@@ -188,6 +253,8 @@ func build(c Case, rec *recorder) (comps []any, bad string) {
 	for i := 0; i < c.N; i++ {
 		sh := shape(i)
 		switch {
+		case sh == "P" && c.Mode != "" && c.RunnerSlot == i:
+			comps[i] = &server{closer{core: mk(i)}}
 		case sh == "P":
 			comps[i] = &closer{core: mk(i)}
 		case sh == "I":
@@ -238,6 +305,22 @@ func build(c Case, rec *recorder) (comps []any, bad string) {
 			return nil, fmt.Sprintf("slot %d (%s) has no component", i, shape(i))
 		}
 	}
+	switch c.Mode {
+	case "":
+	case "during", "self":
+		if c.RunnerSlot >= 0 {
+			if c.RunnerSlot >= c.N || shape(c.RunnerSlot) != "P" {
+				return nil, "the runner's slot must be an ordinary closer"
+			}
+		} else {
+			comps = append(comps, &runner{rec: rec})
+		}
+		if c.RelBy < 0 || c.RelBy > c.N {
+			return nil, "rel_by out of range"
+		}
+	default:
+		return nil, "unknown mode " + c.Mode
+	}
 	return comps, ""
 }
 
@@ -247,7 +330,8 @@ func runCase(c Case) (out Out) {
 		old := runtime.GOMAXPROCS(c.Procs)
 		defer runtime.GOMAXPROCS(old)
 	}
-	rec := &recorder{n: c.N, allCalled: make(chan struct{}), closed: make(chan struct{})}
+	rec := &recorder{n: c.N, allCalled: make(chan struct{}), closed: make(chan struct{}),
+		mode: c.Mode, relBy: c.RelBy, release: make(chan struct{}), started: make(chan struct{})}
 	if c.N == 0 {
 		close(rec.allCalled)
 	}
@@ -258,32 +342,105 @@ func runCase(c Case) (out Out) {
 	}
 	defer zreset()
 	a := app.NewApp()
+	rec.app = a
 	var runErr error
-	if p := hx.Guard(func() {
-		runErr = a.Run(app.LogLevel(syslog.LvFatal), app.SetConfigLoader(), app.SetComponents(comps...))
-	}); p != "" {
-		out.Outcome, out.Detail = "panic", "Run: "+p
-		return
-	}
-	if runErr != nil {
-		out.Outcome, out.Detail = "runerr", runErr.Error()
-		return
-	}
-	out.Registered = len(a.CloserComponents)
-	done := make(chan string, 1)
+	runDone := make(chan string, 1)
 	go func() {
-		p := hx.Guard(func() { a.Close() })
-		rec.add(Event{K: "close"})
-		close(rec.closed)
-		done <- p
+		runDone <- hx.Guard(func() {
+			runErr = a.Run(app.LogLevel(syslog.LvFatal), app.SetConfigLoader(), app.SetComponents(comps...))
+		})
 	}()
-	select {
-	case p := <-done:
+	runEnded := func(p string) bool { // true: the case is over
 		if p != "" {
-			out.Outcome, out.Detail = "panic", "Close: "+p
+			out.Outcome, out.Detail = "panic", "Run: "+p
+			return true
 		}
-	case <-time.After(hangTimeout + time.Duration(c.WdlMs)*time.Millisecond):
-		out.Outcome = "hang"
+		if runErr != nil {
+			out.Outcome, out.Detail = "runerr", runErr.Error()
+			return true
+		}
+		return false
+	}
+	wdl := time.Duration(c.WdlMs) * time.Millisecond
+	switch c.Mode {
+	case "":
+		if runEnded(<-runDone) {
+			return
+		}
+		out.Registered = len(a.CloserComponents)
+	case "during":
+		// Close is invoked while Run is still inside callRunners: wait until the blocking runner has started
+		select {
+		case <-rec.started:
+		case p := <-runDone:
+			if !runEnded(p) {
+				out.Outcome, out.Detail = "runerr", "Run returned although the runner was never started"
+			}
+			return
+		case <-time.After(hangTimeout):
+			out.Outcome, out.Detail = "hang", "Run: the runner was never started"
+			return
+		}
+		out.Registered = len(a.CloserComponents)
+	case "self":
+		// the runner calls App.Close() itself; the driver only waits for Run to return
+		select {
+		case p := <-runDone:
+			if runEnded(p) {
+				return
+			}
+			if rec.closePanic != "" {
+				out.Outcome, out.Detail = "panic", "Close: "+rec.closePanic
+			}
+			select {
+			case <-rec.started:
+			default:
+				out.Outcome, out.Detail = "runerr", "Run returned although the runner was never started"
+				return
+			}
+		case <-time.After(hangTimeout + wdl):
+			out.Outcome, out.Detail = "hang", "Run did not return: the runner is inside App.Close"
+		}
+		out.Registered = int(atomic.LoadInt32(&rec.registered))
+	}
+	if c.Mode != "self" {
+		done := make(chan string, 1)
+		go func() {
+			p := hx.Guard(func() { a.Close() })
+			rec.add(Event{K: "close"})
+			close(rec.closed)
+			if rec.mode == "during" && rec.relBy == 0 {
+				rec.releaseRunner() // the runner is released by the driver once Close has returned
+			}
+			done <- p
+		}()
+		select {
+		case p := <-done:
+			if p != "" {
+				out.Outcome, out.Detail = "panic", "Close: "+p
+			}
+		case <-time.After(hangTimeout + wdl):
+			out.Outcome, out.Detail = "hang", "App.Close did not return"
+			if c.Mode == "during" {
+				out.Detail += " (Run is still inside callRunners)"
+			}
+		}
+	}
+	if c.Mode == "during" {
+		rec.releaseRunner() // whatever happened: let Run go on, then it has to return
+		select {
+		case p := <-runDone:
+			if out.Outcome == "ok" {
+				runEnded(p)
+			}
+		case <-time.After(hangTimeout):
+			if out.Outcome == "ok" {
+				out.Outcome, out.Detail = "hang", "Run did not return after its runner was released"
+			}
+		}
+		if rec.runnerLost.Load() && out.Outcome == "ok" {
+			out.Outcome, out.Detail = "hang", "the runner was never released"
+		}
 	}
 	// let every closer that was called finish (they are released by rec.closed); bounded
 	deadline := time.Now().Add(2 * time.Second)
